@@ -908,6 +908,16 @@ def random_spec(rng, tok, fx: dict, *, allow=None, depth: int = 0) -> dict:
                                                              "data": data, "fixture": name})
         natt += 1
         feats.append("att:encrypted:" + ext)
+    named = [a for a in atts if a["disp"] == "attachment" and a["filename"] and not a.get("mismatch")]
+    if len(named) >= 2 and allow.get("same_name_twice", True) and rng.random() < 0.2:
+        # two attachments of one message under the same file name, with different contents (Outlook's image001.png twice, two
+        # "report.pdf" from different folders): names are not keys - each attachment keeps its own bytes, in its own place
+        first, second = rng.sample(named, 2)
+        same_kind = [a for a in named if a is not first and a["kind"] == first["kind"] and a["data"] != first["data"]]
+        second = rng.choice(same_kind) if same_kind else second
+        if second["data"] != first["data"]:
+            second["filename"] = first["filename"]
+            feats.append("att:same-name-twice")
     if inline_n:
         feats.append(f"struct:related:{inline_n}")
     spec["atts"] = atts
